@@ -181,6 +181,112 @@ def vec_cases(seed, quick):
                 out.append(case(ty, d, "T", "-", a, b))
     return out
 
+# ------------------------------------------------------------------------------------ floating-point leg
+# Cases for the bit-exact comparison of the library with the Flocq model evaluated in Coq (coq/Geo/FloatModel.v,
+# FloatDriver.v).  Same line format; types d and f only; kinds U, B, S with mask xad (every operation), and C
+# (conversions double <-> float, int -> float/double).  Values come from one pool per type: special values
+# (signed zeros, smallest / largest subnormals and normals, infinities, quiet and signalling NaN patterns, values
+# whose square or product overflows or underflows, 2^53 and neighbours, halfway cases), random bit patterns over
+# the WHOLE exponent range, random values of moderate exponent (rounding of every sum and product matters: the
+# accumulation ORDER of dot / sqrnorm / l1_norm / mean_abs is visible in the last bit), small integers,
+# near-cancelling pairs.
+
+D_SPECIAL = [0x0000000000000000, 0x8000000000000000, 0x0000000000000001, 0x8000000000000001, 0x000fffffffffffff, 0x800fffffffffffff,
+             0x0010000000000000, 0x8010000000000000, 0x7fefffffffffffff, 0xffefffffffffffff, 0x7ff0000000000000, 0xfff0000000000000,
+             0x7ff8000000000000, 0xfff8000000000000, 0x7ff0000000000001, 0x7ff4000000abcdef,
+             0x3ff0000000000000, 0xbff0000000000000, 0x3ff0000000000001, 0x3fefffffffffffff, 0x4340000000000000, 0x4340000000000001,
+             0x433fffffffffffff, 0x3fe0000000000000, 0x3ff8000000000000, 0x3fd5555555555555, 0x3fb999999999999a, 0x4008000000000000,
+             0x5fefffffffffffff, 0x5ff0000000000000, 0x5fe6a09e667f3bcd, 0xdfe6a09e667f3bcd, 0x1e60000000000000, 0x1e5fffffffffffff,
+             0x2000000000000000, 0x9ff0000000000000, 0x7fe0000000000000, 0xffe0000000000000, 0x0020000000000000, 0x3ca0000000000000,
+             0x4000000000000000, 0xc000000000000000, 0x7fd0000000000000, 0x0008000000000000]
+F_SPECIAL = [0x00000000, 0x80000000, 0x00000001, 0x80000001, 0x007fffff, 0x807fffff, 0x00800000, 0x80800000, 0x7f7fffff, 0xff7fffff,
+             0x7f800000, 0xff800000, 0x7fc00000, 0xffc00000, 0x7f800001, 0x7fa0beef, 0x3f800000, 0xbf800000, 0x3f800001, 0x3f7fffff,
+             0x4b800000, 0x4b800001, 0x4b7fffff, 0x3f000000, 0x3fc00000, 0x3eaaaaab, 0x3dcccccd, 0x40400000, 0x5f7fffff, 0x5f800000,
+             0x5f3504f3, 0xdf3504f3, 0x1f800000, 0x20000000, 0x7f000000, 0xff000000, 0x01000000, 0x33800000, 0x40000000, 0xc0000000, 0x00400000]
+
+def fl_value(r, ty, mode):
+    """one bit pattern (as the token xHEX / yHEX)"""
+    if ty == "d":
+        if mode == 0: b = r.pick(D_SPECIAL)
+        elif mode == 1: b = r.next()                                                   # any pattern: the whole exponent range, NaN/inf included
+        elif mode == 2: b = (r.below(2) << 63) | (r.range(1023 - 6, 1023 + 6) << 52) | r.below(1 << 52)     # moderate exponents
+        elif mode == 3: return dbits(float(r.range(-50, 50)))
+        elif mode == 4: b = (r.below(2) << 63) | (r.pick([1, 2, 3, 1022, 1023, 1024, 2044, 2045, 2046, 511, 512, 513, 1535, 1536]) << 52) | r.below(1 << 52)
+        else: b = (r.below(2) << 63) | r.below(1 << 52)                                # subnormals
+        return "x%016x" % (b & MASK)
+    if mode == 0: b = r.pick(F_SPECIAL)
+    elif mode == 1: b = r.next() & 0xffffffff
+    elif mode == 2: b = (r.below(2) << 31) | (r.range(127 - 6, 127 + 6) << 23) | r.below(1 << 23)
+    elif mode == 3: return fbits(float(r.range(-50, 50)))
+    elif mode == 4: b = (r.below(2) << 31) | (r.pick([1, 2, 3, 126, 127, 128, 252, 253, 254, 63, 64, 65, 190, 191]) << 23) | r.below(1 << 23)
+    else: b = (r.below(2) << 31) | r.below(1 << 23)
+    return "y%08x" % b
+
+def fl_vec(r, ty, d, mode):
+    """mode 6 = mixed pool per component"""
+    return [fl_value(r, ty, r.below(6) if mode == 6 else mode) for _ in range(d)]
+
+def fl_neg(tok):
+    if tok[0] == "x": return "x%016x" % (int(tok[1:], 16) ^ (1 << 63))
+    return "y%08x" % (int(tok[1:], 16) ^ (1 << 31))
+
+def float_cases(seed, quick):
+    r = Rng(seed ^ 0xF10A7)
+    out = []
+    def line(ty, d, kind, mask, vals): out.append("%s %d %s %s %s" % (ty, d, kind, mask, " ".join(vals)))
+    for ty, share in (("d", 3), ("f", 1)):
+        n = (12 if quick else 250) * share
+        for d in (2, 3, 4):
+            for mode in (0, 1, 2, 2, 3, 4, 5, 6):
+                for _ in range(n // 3 if mode in (1, 3, 5) else n):
+                    a, b = fl_vec(r, ty, d, mode), fl_vec(r, ty, d, mode)
+                    c = r.below(10)
+                    if c == 0: b = list(a)
+                    elif c == 1: k = r.below(d); b[k] = fl_neg(a[k])                       # cancellation / |x| ties
+                    elif c == 2: k = r.range(1, d - 1); b = a[:k] + b[k:]                  # equal prefix: a later component decides <
+                    elif c == 3: k = r.below(d); a[k] = fl_value(r, ty, 0)                 # one special component among ordinary ones
+                    line(ty, d, "B", "xad", a + b)
+                    line(ty, d, "U", "xad", a)
+                    line(ty, d, "S", "xad", a + [fl_value(r, ty, r.pick([0, 2, 3, mode]) if mode != 6 else r.below(6))])
+        # order of accumulation: huge + small - huge (exact answer small, left-to-right loses it at a definite place)
+        big, one = ("x4690000000000000", "x3ff0000000000000") if ty == "d" else ("y5c800000", "y3f800000")
+        for d in (3, 4):
+            base = [big, one, fl_neg(big), one][:d]
+            ones = [one] * d
+            for perm in itertools.permutations(range(d)):
+                line(ty, d, "B", "xad", [base[i] for i in perm] + ones)
+                line(ty, d, "U", "xad", [base[i] for i in perm])
+        # conversions
+        for d in (2, 3, 4):
+            for _ in range(20 if quick else 600):
+                line(ty, d, "C", "f" if ty == "d" else "d", fl_vec(r, ty, d, 6))
+    for d in (2, 3, 4):
+        for _ in range(20 if quick else 600):
+            line("i", d, "C", "fd", [str(r.pick([r.range(-10000, 10000), r.range(INT_MIN, INT_MAX), 16777217, -16777219, 16777216, 33554434, 33554438, INT_MAX, INT_MIN, 0]))
+                                     for _ in range(d)])
+    return out
+
+def float_mesh_scripts(seed, quick):
+    """mesh scripts whose positions are arbitrary binary64 patterns (PosB): the shapes of mesh_script with the
+    integer positions replaced, plus degenerate shapes; every live entity is queried (Q)."""
+    r = Rng(seed ^ 0xF6E0)
+    n = 14 if quick else 600
+    out = {}
+    for i in range(n):
+        lines = mesh_script(r, i)
+        mode = i % 5          # 0: keep the integer positions (exactly representable)   1..4: replace
+        new = []
+        for l in lines:
+            t = l.split()
+            if t[0] == "Pos" and mode:
+                m = {1: 2, 2: 6, 3: 1, 4: 0}[mode]
+                if int(t[1]) >= 0: l = "PosB %s %s" % (t[1], " ".join(fl_value(r, "d", m if not r.chance(1, 6) else 0) for _ in range(3)))
+            elif t[0] == "Pos":
+                if int(t[1]) >= 0: l = "PosB %s %s" % (t[1], " ".join(dbits(float(int(x))) for x in t[2:5]))
+            new.append(l)
+        out["fgeo-%d-%d" % (seed, i)] = new
+    return out
+
 def search_cases(seed, n):
     """extra random cases for the impl-side oracle search (used when a proof or the correspondence broke)"""
     r = Rng(seed ^ 0x5EA7C4)
